@@ -18,7 +18,7 @@ func init() {
 	core.Register(&core.Prop{
 		ID:    "C10",
 		Level: "exploration",
-		Rule: "invalid texts: generated documents (hostile layouts, CRLF, Unicode, '%' and other look-alike text) with ONE rule-violating edit from the 16-operator catalogue at a PRNG position biased to first/last lines and records " +
+		Rule: "invalid texts: generated documents (hostile layouts, CRLF, Unicode, '%' and other look-alike text) with ONE rule-violating edit from the 18-operator catalogue at a PRNG position biased to first/last lines and records " +
 			"(the line where conformance stops is determined by the independent line automaton), plus multi-fault texts for the bounds/ordering clauses. serial and a parallel engine. " +
 			"oracle per error: 1 <= line <= #lines, LineText == that physical line, position >= 0, length >= 0, position+length <= runes(line)+1, lines non-decreasing; first error on the automaton's first non-conforming line; " +
 			"for 1 in 4 cases `klog print FILE` (terminal report under no_colour or a colour theme, SGR stripped by the harness) and `klog json FILE` must show the same line/column/length/message and must not fail. " +
